@@ -13,6 +13,9 @@ Inductive policy :=
 | PAllowedDomain (hs : list bytes)
 | PAlwaysCopy (names : list bytes)   (* AlwaysCopyHeaderRedirectPolicy(names...): never refuses; the names
                                       in canonical form (http.Header.Values canonicalises its key) *)
+| PFault (k : nat)                  (* a USER-DEFINED policy that faults (panics) when asked about the hop with
+                                      len(via) = k and permits every other hop.  A fault is no permission: the
+                                      panic leaves CheckRedirect, net/http and the call - nothing is sent *)
 | PNil.                             (* a nil entry in the variadic list: skipped *)
 
 Definition mem_bytes (x : bytes) (l : list bytes) : bool := existsb (bytes_eqb x) l.
@@ -29,6 +32,7 @@ Definition permits (p : policy) (target : bytes) (via : list bytes) : bool :=
   | PAllowedHost hs => mem_bytes (get_hostname target) (map (fun h => to_lower (get_hostname h)) hs)
   | PAllowedDomain hs => mem_bytes (get_domain target) (map (fun h => to_lower (get_domain h)) hs)
   | PAlwaysCopy _ => true
+  | PFault k => negb (Nat.eqb (length via) k)
   | PNil => true
   end.
 
